@@ -80,3 +80,15 @@ Theorem returned_policy_length : forall M g V n mb d pidx, n = Z.of_nat (nS M) -
   (1 <= mb)%Z -> (1 <= d)%Z -> length (kernel_policy M n mb d pidx g V) = nS M.
 Proof. exact kernel_policy_length. Qed.
 Print Assumptions returned_policy_length.
+
+(* ---------- ties by translation (re-stated here so that THIS property's obligations break when the source they speak about
+   changes shape): gen/GenKernel.v and gen/GenLoops.v are regenerated from $VERIF_REPO/src on every run *)
+From MdpaxV Require Import Model.Skeleton Model.Kernel Model.KernelOps Proofs.SkeletonP Proofs.GenKernelP.
+From MdpaxGen Require Import GenLoops GenKernel.
+
+(* the one-state update GENERATED from ValueIteration._calculate_updated_value (expectation over the event space with the
+   problem's own probabilities, maximum over the action space) is the Bellman optimality backup the theorems above use *)
+Theorem c03_generated_update_is_bellman_backup : forall (M : mdp) st g V, (0 < nA M)%nat ->
+  gen_calculate_updated_value (prims_of M) st (seq 0 (nA M)) (seq 0 (nE M)) g V = backup M g V st.
+Proof. exact gen_updated_value_is_backup. Qed.
+Print Assumptions c03_generated_update_is_bellman_backup.
